@@ -259,6 +259,33 @@ def thorough_c02(tier):
     return out
 
 
+def replay_c05(failure, tier):
+    """Bounded stand-in for C05: an adversary deleting published cache files, simulated by ENOENT injection on the calls
+    that name the published entry, and on the stat of a listed entry during maintenance; see tools/replay.py."""
+    return replay.c05_search(tier) or replay.c05_maint_search(tier)
+
+
+def replay_c06(failure, tier):
+    """C06: the system-call trace (no lock, no sleep, bounded calls) and, because an operation must *finish successfully*
+    wherever the others stopped, the vanished-entry search of C05 for maintenance."""
+    return replay.c20_search(tier) or replay.c05_maint_search(tier)
+
+
+replay_c06.what = 'see replay_c20.what; plus: a file that maintenance has listed vanishes before it is examined (ENOENT injected into the stat of each directory entry in turn): the write must still succeed'
+replay_c05.what = ('an adversary that deletes the PUBLISHED entry of the key at every point of set / put / get / touch / ensure / Replace (strace -P <entry> -e inject=…:error=ENOENT, '
+                   'from the i-th call that names the entry on; rename and link onto the name still work): the operation must still succeed (a lookup reports a miss, a touch '
+                   'absence, a write completes); and a file that maintenance has listed vanishes before it is examined')
+
+
+def thorough_c05(tier):
+    found = replay.c05_search('thorough')
+    out = {'bounded': [replay_c05.what + ' (%s adversary positions in this run)' % getattr(replay.c05_search, 'runs', '?')],
+           'coverage': {'native_evaluations': getattr(replay.c05_search, 'runs', 0)}}
+    if found:
+        out['violations'] = [{'property': 'C05', 'obligation': ['bounded: simulated concurrent deletion on the real crate'], 'failing_input': found}]
+    return out
+
+
 def thorough_c20(pid):
     def th(tier):
         found = replay.c20_search('thorough')
@@ -380,11 +407,12 @@ _u4('C18', 'Unbounded proof with failure enabled at every POSIX stub (any call m
 _u4('C05', 'Proof (sequential model) that absence is never an error: is_absent_file_error is exactly ENOENT-kind or ESTALE; get reports Ok(None), touch Ok(false), '
     'ensure_file_removed / apply_update / collect_cached_files / cleanup skip what has vanished, prune on a missing directory yields Ok(0) through definitely_cleanup; '
     'every Err of an operation implies a counted hard fault (or an invalid name / absent source).',
+    replayer=replay_c05, thorough=thorough_c05,
     not_covered=[CONC_NC, SHARD_NC, STACK_NC])
 _u4('C06', 'Proof of termination (decreases on every loop) and of closed-form bounds on the number of own filesystem calls: get <= 6, touch <= 2, set <= 22, put <= 26 outside '
     'maintenance; collect <= 2*(2+2L), prune <= 2*(2+3L), maintenance <= 2*(4+3L) for L directory items read (every bound is twice the current count on purpose: the property asks for a constant, resp. linear, bound, not for today\'s number of calls; open attempts are bounded exactly). The lock and wait primitives (File::lock*, try_lock*, unlock, libc::flock, thread::sleep, yield_now, spin_loop) exist as stand-ins whose precondition is `false`, so any call to one is a failed obligation, '
     'and no retry-until loop can be given a decreases measure.',
-    replayer=replay_c20, thorough=thorough_c20('C06'),
+    replayer=replay_c06, thorough=thorough_c20('C06'),
     not_covered=[CONC_NC, 'regenerate() terminates with probability 1 only', SHARD_NC, STACK_NC])
 _u4('C20', 'Proof that the step and open counts of get/touch/set/put outside maintenance are constants independent of the directory population (the postconditions are closed '
     'formulas with 100% slack on calls and none on opens: <=6 calls/1 open, <=2/0, <=22/0, <=26/0) and that no directory item is read (listed unchanged) unless the trigger fires.',
